@@ -49,7 +49,7 @@ TEXT = {
         "design_ref": "DESIGN.md sect. 4 (C16)",
         "technique": "deterministic simulation: Tracer slot operations and builder events issued by concurrent tasks under the seeded scheduler and fake clock; refinement against a sequential slot model replayed in the recorded linearization order (the scheduler step at which each operation's critical section ran), plus exactly-once/immutability/ordering oracle for traced HTTP operations with seeded cancellation and faults; shrinking + exact replay",
         "level_text": "Seeded exploration of interleavings: (A) Init/Complete/Await/Clear from 2-5 tasks on up to 3 names with fake-clock deadlines; because the simulator serialises critical sections and records at which step each ran, the sequential model (absent / pending(generation) / done(generation, trace)) is replayed in exactly the order the implementation took, and every returned trace, immediate failure, timeout instant and 'never outlives its context' is checked; (B) request body, response body or transport error, application close and context cancellation from concurrent tasks: exactly one delivery for a named operation, none for an unnamed one, no event after the finishing event, delivered events immutable, consecutive message indexes. Evidence, not proof.",
-        "level_note": "Deviation from DESIGN.md: porcupine is not needed, since the linearization order is observed rather than searched. The data-race clause of the statement is not decided by this check (serialised execution hides races by construction); see DESIGN.md. Second part (scenario c16-fetch, config C16F, same command, own test binary): the runner's consumer side - results.go fetchTrace waiters (Await with a TraceTimeout context, Clear) against producer tasks completing traces before the outcome, racing it, just inside / outside the timeout, never, or twice; the printed report must show exactly the first trace completed inside the timeout, none otherwise, report() returns within last outcome + TraceTimeout, and every slot is cleared afterwards.",
+        "level_note": "Deviation from DESIGN.md: porcupine is not needed, since the linearization order is observed rather than searched. The data-race clause of the statement is not decided by this check (serialised execution hides races by construction); see DESIGN.md. Second part (scenario c16-fetch, config C16F, same command, own test binary): the runner's consumer side - results.go fetchTrace waiters (Await with a TraceTimeout context, Clear) against producer tasks completing traces before the outcome, racing it, just inside / outside the timeout, never, or twice; the printed report must show exactly the first trace completed inside the timeout, none otherwise, report() returns within last outcome + TraceTimeout, and every slot is cleared afterwards. Third part (scenario c16-wire, config C16W, same command, reference client test binary): the reference client's own hand-off through the call context (wire_details.go: withWireCapture / setWireTrace / examineWireDetails) with a live, cancelled or expired call context and a trace completed before, 0..1.5 s after the examination began or never: obtained exactly when completed inside the one-second grace period, the wait never outlives it.",
     },
     "C14": {
         "engine": "S",
